@@ -806,7 +806,10 @@ def replay(ctx, rec):
         print('replay names broken obligations only:', json.dumps(rec['broken_obligations'])[:3000]); return 1
     inp = dict(rec['input']); name = inp.pop('oracle')
     inp.pop('point', None)
-    res = ORACLES[name](inp)
+    try:
+        res = ORACLES[name](inp)
+    except Exception as e:
+        res = [('no_exception', False, 'a result', repr(e))]
     for r in res:
         print(('FAIL ' if not r[1] else 'ok   ') + r[0], '' if r[1] else 'expected=%s observed=%s' % (str(r[2])[:300], str(r[3])[:300]))
     return 1 if [r for r in res if not r[1]] else 0
